@@ -1,9 +1,10 @@
 package main
 
 import (
-	"math/big"
 	"math"
+	"math/big"
 	"math/rand"
+	"reflect"
 
 	"github.com/ctessum/geom"
 	"github.com/ctessum/geom/op"
@@ -53,6 +54,33 @@ func runC03(c map[string]interface{}) []Event {
 				}
 			}
 		}
+		// every other case: all rings of the shape lie back to back in one array of points (each with the rest of the array as
+		// spare capacity); the shape is the same shape, and it must still be after it has been measured
+		shared := (len(sp)+len(arr(sp[0]))+sh+int(seed()))%2 == 0
+		if shared {
+			n := 0
+			for _, p := range mp {
+				for _, r := range p {
+					n += len(r)
+				}
+			}
+			pts := make([]geom.Point, 0, n)
+			for _, p := range mp {
+				for i, r := range p {
+					o := len(pts)
+					pts = append(pts, r...)
+					p[i] = geom.Path(pts[o:len(pts):cap(pts)])
+				}
+			}
+		}
+		var before [][]geom.Path
+		for _, p := range mp {
+			var rs []geom.Path
+			for _, r := range p {
+				rs = append(rs, append(geom.Path{}, r...))
+			}
+			before = append(before, rs)
+		}
 		scaledPt := func(p geom.Point) []interface{} {
 			return scaledPt(geom.Point{X: math.Ldexp(p.X, -sh) - off.X, Y: math.Ldexp(p.Y, -sh) - off.Y})
 		}
@@ -79,6 +107,14 @@ func runC03(c map[string]interface{}) []Event {
 					e["opcen"] = scaledPt(oc)
 				}
 				g = mp[0]
+			}
+			for i, p := range mp { // the operands are what they were
+				for j, r := range p {
+					if !reflect.DeepEqual([]geom.Point(r), []geom.Point(before[i][j])) {
+						e["area2exact"] = false
+						e["note"] = "the shape was modified by measuring it"
+					}
+				}
 			}
 			oa := math.Ldexp(op.Area(g), -2*sh)
 			if 2*oa == math.Round(2*oa) {
